@@ -32,6 +32,8 @@ def main():
     ap.add_argument("--replay", default=None)
     ap.add_argument("--nproc", type=int, default=int(os.environ.get("VERIF_NPROC", "16")))
     ap.add_argument("--no-evidence", action="store_true")
+    ap.add_argument("--dump", default=None, help="self-test: write key->digest map here (fixed run counts, no evidence)")
+    ap.add_argument("--max-runs", type=int, default=15)
     args = ap.parse_args()
     from sim import c12impl
 
